@@ -25,14 +25,14 @@ import gen_handlers    # noqa: E402
 py2coq.MODULES.setdefault('HandlersGen', gen_handlers.gen_handlers)
 
 PROP = 'C20'
-THEOREMS = ['C20_class', 'C20_ft', 'C20_all', 'C20_main_path', 'C20_escape', 'C20_message_names_file',
-            'C20_total_sound', 'C20_yaml', 'C20_xml', 'C20_html']
+THEOREMS = ['C20_class', 'C20_ft', 'C20_all', 'C20_partial', 'C20_main_path', 'C20_escape',
+            'C20_message_names_file', 'C20_total_sound', 'C20_yaml']
 HEADER = ('From Coq Require Import String List Bool ZArith.\nRequire Import GT.PyBase GT.HandlersSpec.\n'
           'Import ListNotations.\nOpen Scope string_scope.\n')
 MODEL_HEADER = 'Require Import GTgen.HandlersGen GT.HandlersModel.\n'
 TEXT_TYPES = ['json', 'json5', 'yaml', 'xml', 'html', 'plist']
 EXT = {'json': 'json', 'json5': 'json5', 'yaml': 'yaml', 'xml': 'xml', 'html': 'html', 'plist': 'plist'}
-KF_CLASSES = ['kf_json5_format_spec', 'kf_plist_uncaught', 'kf_json_unicode']
+KF_CLASSES = ['kf_json5_format_spec', 'kf_plist_uncaught', 'kf_json_unicode', 'kf_xml_encoding']
 
 
 # ------------------------------------------------------------------ implementation side (worker)
@@ -134,12 +134,13 @@ def seeds():
     h1 = ('<html><head><title>Tëst</title></head><body class="x"><p>para <b>bold</b></p><br/>'
           '<ul><li>1</li><li>2</li></ul></body></html>')
     h2 = '<!DOCTYPE html>\n<html lang="en">\n<body>\n<div id="a"><span>中</span></div>\n</body>\n</html>\n'
+    h3 = ('<?xml version="1.0" encoding="UTF-8"?>\n<html xmlns="http://www.w3.org/1999/xhtml"><body><p>x</p></body></html>\n')
     p1 = plistlib.dumps({'name': 'Zoë', 'n': 3, 'r': 1.5, 't': True, 'f': False,
                          'list': [1, 'two', {'k': 'v'}], 'nested': {'a': {'b': '中'}}}, fmt=plistlib.FMT_XML)
     p2 = plistlib.dumps([1, 2, {'a': 'b'}], fmt=plistlib.FMT_XML)
     u = lambda s: s.encode('utf-8')  # noqa: E731
     return {'json': [u(j1), u(j2), u(j3), u(j4)], 'json5': [u(f1), u(f2), u(j2)],
-            'yaml': [u(y1), u(y2), u(y3)], 'xml': [u(x1), u(x2)], 'html': [u(h1), u(h2)], 'plist': [p1, p2]}
+            'yaml': [u(y1), u(y2), u(y3)], 'xml': [u(x1), u(x2)], 'html': [u(h1), u(h2), u(h3)], 'plist': [p1, p2]}
 
 
 DELIMS = {'json': b'{}[]",:', 'json5': b'{}[]",:\'/*', 'yaml': b':-[]{},"\'#|>&*!\n ',
@@ -515,6 +516,12 @@ def check(tier, seed):
 
 def replay(path):
     obj = json.load(open(path))
+    if 'replay' in obj and isinstance(obj['replay'], dict) and 'bad_hex' in obj['replay']:
+        obj = obj['replay']                     # an entry of known_findings.json
+    if 'bad_hex' not in obj:
+        # a tie-broken record without a failing input: the quick check itself is the replay
+        print(f'replay file holds no input (kind={obj.get("kind")}); re-running the quick check')
+        return check('quick', 1)
     wd = common.Workdir(PROP + 'r')
     try:
         st = common.build(['theories/HandlersModel.vo'], [])
